@@ -55,6 +55,30 @@ type ProgLayout struct {
 	GapBytes       []int         `json:"gap_bytes,omitempty"` // filler bytes before the i-th chunk of ChunkOrder; may be nil
 	MovieTimescale uint32        `json:"movie_timescale"`
 	HeaderV1       bool          `json:"header_v1,omitempty"` // version 1 (64-bit) mvhd/tkhd/mdhd/elst
+	// Extra top-level boxes after ftyp (Lead) and at the end of the file (Trail): "mdat0" (empty mdat, which
+	// the library documents as allowed next to the real one), "free", "skip", "uuid", "zzzz"
+	Lead  []string `json:"lead,omitempty"`
+	Trail []string `json:"trail,omitempty"`
+}
+
+// ExtraTop returns the bytes of the extra top-level boxes named in kinds.
+func ExtraTop(kinds []string) []byte {
+	var out []byte
+	for _, k := range kinds {
+		switch k {
+		case "mdat0":
+			out = append(out, Box("mdat")...)
+		case "free":
+			out = append(out, Box("free", []byte{1, 2, 3})...)
+		case "skip":
+			out = append(out, Box("skip")...)
+		case "uuid":
+			out = append(out, Box("uuid", []byte("0123456789abcdef"), []byte{9, 9})...)
+		default:
+			out = append(out, Box("zzzz", []byte{0xde, 0xad})...)
+		}
+	}
+	return out
 }
 
 // TrackTruth says where the samples of one track are. Slices are parallel to Track.Samples
@@ -264,11 +288,12 @@ func BuildProgressive(tracks []Track, lay ProgLayout) (file []byte, truth *Truth
 	// learn its size, then with the absolute ones.
 	moov := buildMoov(tracks, lay, truth)
 	var base uint64 // absolute position of the mdat payload
+	lead := ExtraTop(lay.Lead)
 	if lay.MdatFirst {
-		truth.MdatStart = uint64(len(ftyp))
+		truth.MdatStart = uint64(len(ftyp) + len(lead))
 		truth.MoovStart = truth.MdatStart + uint64(mdatHdr) + uint64(len(payload))
 	} else {
-		truth.MoovStart = uint64(len(ftyp))
+		truth.MoovStart = uint64(len(ftyp) + len(lead))
 		truth.MdatStart = truth.MoovStart + uint64(len(moov))
 	}
 	base = truth.MdatStart + uint64(mdatHdr)
@@ -296,6 +321,7 @@ func BuildProgressive(tracks []Track, lay ProgLayout) (file []byte, truth *Truth
 		mdat = Box("mdat", payload)
 	}
 	file = append(file, ftyp...)
+	file = append(file, lead...)
 	if lay.MdatFirst {
 		file = append(file, mdat...)
 		file = append(file, moov...)
@@ -303,6 +329,7 @@ func BuildProgressive(tracks []Track, lay ProgLayout) (file []byte, truth *Truth
 		file = append(file, moov...)
 		file = append(file, mdat...)
 	}
+	file = append(file, ExtraTop(lay.Trail)...)
 	return file, truth, nil
 }
 
